@@ -613,7 +613,86 @@ def w_histories(job):
     return sh.result()
 
 
+def alias_module(nb, nx, via_call):
+    """a class whose base is reached through a chain of nb aliases, and a chain of nx aliases ending in an attribute the class
+    inherits: evaluation gets deep, and how deep depends on what was evaluated (and memoised) before"""
+    lines = ['class Helper(object):', '    def __init__(self):', '        self.pong = 1', '', '    def ping(self):', '        return self.pong', '', '',
+             'class Base(object):', '    shared = Helper()', '', '    def hello(self):', '        return 1', '', '', 'def ident(v):', '    return v', '', '', 'b0 = Base']
+    lines += ['b%d = b%d' % (i, i - 1) for i in range(1, nb)]
+    lines += ['', '', 'class K(b%d):' % (nb - 1), '    def own(self):', '        self.mine = 2', '        return self', '', '', 'x0 = K.shared']
+    lines += [('x%d = ident(x%d)' if via_call and i % 7 == 3 else 'x%d = x%d') % (i, i - 1) for i in range(1, nx)]
+    lines += ['k0 = K()'] + ['k%d = k%d' % (i, i - 1) for i in range(1, max(2, nx // 2))]
+    return '\n'.join(lines) + '\n'
+
+
+def _alias_ask(project, root, kind, expr):
+    from supp import assistant
+    src = 'import am\n' + expr + ('.' if kind == 'assist' else '.ping' if 'x' in expr else '.hello')
+    pos = (2, len(src.split('\n')[1]))
+    try:
+        with project.check_changes():
+            if kind == 'assist':
+                r = assistant.assist(project, src, pos, os.path.join(root, 'buffer.py'))
+                return ('ok', sorted(x for x in r[1] if not x.startswith('__')))
+            return ('ok', _norm_loc(assistant.location(project, src, pos, os.path.join(root, 'buffer.py'))))
+    except RecursionError:
+        return ('recursion', None)
+    except Exception as e:
+        return ('exc', type(e).__name__)
+
+
+def run_alias_case(args, sh=None):
+    """-> (signature, case, detail) or None"""
+    from supp.project import Project
+    nb, nx, via_call, order = args
+    root = tempfile.mkdtemp(prefix='c04a_')
+    try:
+        with open(os.path.join(root, 'am.py'), 'w') as f:
+            f.write(alias_module(nb, nx, via_call))
+        exprs = ['am.K', 'am.x%d' % (nx - 1), 'am.b%d' % (nb - 1), 'am.k%d' % (max(2, nx // 2) - 1), 'am.x%d' % (nx // 2), 'am.K()', 'am.x0']
+        reqs = [(k, e) for e in exprs for k in ('assist', 'location')]
+        seq = [reqs[i % len(reqs)] for i in order]
+        project = Project([root])
+        fresh = {}
+        for step, (kind, expr) in enumerate(seq):
+            got = _alias_ask(project, root, kind, expr)
+            if (kind, expr) not in fresh:
+                fresh[(kind, expr)] = _alias_ask(Project([root]), root, kind, expr)
+            want = fresh[(kind, expr)]
+            if got[0] == 'recursion' or want[0] == 'recursion':
+                if sh is not None:
+                    sh.count('alias-chain-recursion-limit')
+                break
+            if got != want:
+                return ('history-dependent-reply:%s:alias-chains' % kind, {'kind': 'alias-chains', 'args': [nb, nx, via_call, list(order[:step + 1])]},
+                        'step %d: %s %s replies %r on the long-lived project, %r on a new one (chains of %d and %d aliases)' % (
+                            step + 1, kind, expr, _short(got), _short(want), nb, nx))
+        if sh is not None:
+            sh.case((nb, nx, via_call, tuple(order)), len(seq) >= 3, {'alias_chains': [nb, nx], 'via_call': via_call, 'requests': [list(r) for r in seq[:6]]})
+            sh.count('alias-chain-histories')
+    finally:
+        shutil.rmtree(root, ignore_errors=True)
+    return None
+
+
+def w_alias_chains(job):
+    """deep alias chains in a project module; the same completion / definition requests in every generated order on one
+    long-lived project must equal the answers of a new project"""
+    from hypothesis import strategies as st
+    idx, seed, n = job
+    sh = Shard()
+
+    def prop(args):
+        bad = run_alias_case(args, sh)
+        if bad:
+            raise Found(*bad)
+    strat = st.tuples(st.integers(1, 16), st.integers(2, 45), st.booleans(), st.lists(st.integers(0, 13), min_size=2, max_size=8))
+    core.hyp_search(sh, prop, strat, seed, n, shrink=True, max_rounds=3)
+    return sh.result()
+
+
 def run(run):
+    run.pmap(w_alias_chains, [(i, core.derive_seed(run.seed, 'c04a', i), run.pick(30, 500)) for i in range(4)])
     n = run.pick(25, 600)
     run.pmap(w_programs, [(i, core.derive_seed(run.seed, 'c04p', i), n) for i in range(16)])
     files = corpus.sample(core.derive_seed(run.seed, 'c04f'), run.pick(24, 600), include_repo=True, max_bytes=run.pick(40000, 400000))
@@ -625,6 +704,9 @@ def replay(case):
     out = []
     if case.get('kind') == 'program':
         probs, _ = check_module(case['src'], suppview.filename_for(case.get('package', False)), random.Random(case.get('oseed', 0)))
+    elif case.get('kind') == 'alias-chains':
+        bad = run_alias_case(tuple(case['args']))
+        probs = [(bad[0], bad[2])] if bad else []
     elif case.get('kind') == 'file':
         src = corpus.read(case['path'])
         probs, _ = check_module(src, case['path'], random.Random(case.get('seed', 0)), k_random=2,
